@@ -54,6 +54,11 @@ func init() {
 	live := GenesisTime.Add(time.Minute).Sub(time.Now())
 	Deviations = append(Deviations, Deviation{Name: "cold+clock=blocktime+seed25", Clock: live, Seed: 25, Cold: true})
 	singleDeviations = append(singleDeviations, Deviation{Name: "host-clock", Clock: live, Cold: true})
+	// ... and one whose host clock is BEHIND the chain's block time (every deadline / expiry the chain has passed
+	// is still ahead on that clock)
+	behind := GenesisTime.Add(-time.Hour).Sub(time.Now())
+	Deviations = append(Deviations, Deviation{Name: "cold+clock-behind-blocktime+seed33", Clock: behind, Seed: 33, Cold: true})
+	singleDeviations = append(singleDeviations, Deviation{Name: "host-clock", Clock: behind, Cold: true})
 }
 
 func setEnv(d Deviation) {
@@ -80,15 +85,52 @@ type Replicas struct {
 	NoRestart bool
 	step      int
 	twin      Driver // a driver whose Init ran on a normally initialised instance (source of Init-derived fields)
+	// initFinding: the fixture itself behaved differently under another environment (see Init)
+	initFinding *Finding
 }
 
-func (r *Replicas) ID() string                    { return r.Property + "/" + r.Inner.ID() }
-func (r *Replicas) Stores() []string              { return r.Inner.Stores() }
-func (r *Replicas) Enabled(e *Env, s *State) []Op { return r.Inner.Enabled(e, s) }
+func (r *Replicas) ID() string       { return r.Property + "/" + r.Inner.ID() }
+func (r *Replicas) Stores() []string { return r.Inner.Stores() }
+func (r *Replicas) Enabled(e *Env, s *State) []Op {
+	if r.initFinding != nil {
+		return nil
+	}
+	return r.Inner.Enabled(e, s)
+}
 
 func (r *Replicas) Init(e *Env) *State {
 	baselineEnv()
-	return r.Inner.Init(e)
+	s, perr := tryInit(r.Inner, e)
+	if perr == nil {
+		return s
+	}
+	// The driver's fixture (ordinary valid transactions) fails under the baseline environment. If it goes through
+	// under another host clock, what the chain accepts depends on the clock of the node.
+	if envseam.Controlled {
+		for _, sd := range singleDeviations {
+			if sd.Clock == 0 {
+				continue
+			}
+			setEnv(sd)
+			e2, d2 := r.Mk()
+			if w, ok := d2.(*Replicas); ok {
+				d2 = w.Inner
+			}
+			_, p2 := tryInit(d2, e2)
+			baselineEnv()
+			if p2 == nil {
+				f := F(r.Property+"/replica-differs/host-clock/fixture", "the fixture transactions of %s fail under the baseline host clock (%v) and succeed when the host clock is shifted by %s: acceptance depends on the clock of the node", r.Inner.ID(), perr, sd.Clock)
+				r.initFinding = &f
+				return &State{Ctx: Branch(e.Root)}
+			}
+		}
+	}
+	panic(perr)
+}
+
+func tryInit(d Driver, e *Env) (s *State, perr interface{}) {
+	defer func() { perr = recover() }()
+	return d.Init(e), nil
 }
 
 type replicaResult struct {
@@ -252,6 +294,9 @@ func sortStrings(a []string) {
 // needed: export is a pure read), and under a cold instance.
 func (r *Replicas) Check(e *Env, s *State) []Finding {
 	baselineEnv()
+	if r.initFinding != nil {
+		return []Finding{*r.initFinding}
+	}
 	r.Inner.Check(e, s)
 	var fs []Finding
 	if !envseam.Controlled {
